@@ -124,11 +124,14 @@ def run(res, tier, seed, widen=1):
         res.evaluations += 1
         case = {"op": "auto", "prev": None, "payloads": [payload.hex()]}
         r = D.impl_auto(None, [payload])
+        if " @" not in r:
+            res.prop_failure(case, f"AutoDecoder failed on a genuine {own} message: {r[:80]}", "own_fresh")
+            continue
         idx = r.rsplit(" @", 1)[1]
         if idx == "N" or D.NAMES[int(idx)] != own:
             res.prop_failure(case, f"genuine {own} message on a fresh AutoDecoder was decoded by {idx}", "own_fresh")
         r2 = D.impl_auto(D.NAMES.index(own), [payload, payload])
-        if any(s.rsplit(" @", 1)[1] != str(D.NAMES.index(own)) for s in r2.split(" ; ")):
+        if any(" @" not in s or s.rsplit(" @", 1)[1] != str(D.NAMES.index(own)) for s in r2.split(" ; ")):
             res.prop_failure(case, f"genuine {own} message after a same-form history was not decoded by its own decoder: {r2[-40:]}", "own_history")
         res.count("own_" + own)
     # decode_message == decode_message_payload(payload) for HDLC frames and DLMS messages
@@ -145,12 +148,17 @@ def run(res, tier, seed, widen=1):
             continue
         for msg, kind, hx in ((f[0], "H", frame), (DlmsMessage(payload), "D", payload)):
             a1, a2 = AutoDecoder(), AutoDecoder()
-            r1 = a1.decode_message(msg)
-            r2 = a2.decode_message_payload(payload)
             res.evaluations += 1
             case = {"op": "automsg", "kind": kind, "hex": hx.hex()}
+            try:
+                r1 = a1.decode_message(msg)
+                r2 = a2.decode_message_payload(payload)
+                names = (a1.previous_success_decoder, a2.previous_success_decoder)
+            except Exception as ex:  # noqa
+                res.prop_failure(case, f"{D.exc_name(ex)} raised by decode_message / previous_success_decoder", "message_eq_payload")
+                continue
             s1 = "None" if r1 is None else D.render_dict(r1)
-            if s1 != ("None" if r2 is None else D.render_dict(r2)) or a1.previous_success_decoder != a2.previous_success_decoder:
+            if s1 != ("None" if r2 is None else D.render_dict(r2)) or names[0] != names[1]:
                 res.prop_failure(case, "decode_message differs from decode_message_payload(payload)", "message_eq_payload")
             reqs.append(f"automsg N {kind} {lib.hexs(hx)}")
             meta.append((case, s1))
